@@ -38,7 +38,7 @@ def judgeLine (line : String) : String :=
     | _ => throw s!"unknown case kind '{kind}'"
   match p.run' toks with
   | .ok (v, tags) => if tags.isEmpty then v.render else v.render ++ " ## " ++ " ".intercalate tags.toList
-  | .error e => s!"BAD {e}"
+  | .error e => if e.startsWith "PROPFAIL " then e else s!"BAD {e}"
 
 partial def loop (h : IO.FS.Stream) (out : IO.FS.Stream) : IO Unit := do
   let line ← h.getLine
